@@ -593,7 +593,10 @@ EnlargeMPSUnitCell ==
                  IN /\ cfg' = c
                     /\ order' = Copies(order)
                     /\ full' = Copies(order)
-                    /\ last' = [op |-> "build", reorder |-> ReorderOf(c, newLs), porder |-> order]
+                    \* "repeat the unit cell": whatever belongs to a site (e.g. its position_disorder) is that of
+                    \* the site it is a copy of: dsrc[k] = lattice index in the original of the k-th site
+                    /\ last' = [op |-> "build", reorder |-> ReorderOf(c, newLs), porder |-> order,
+                                dsrc |-> [k \in 1..(f * Len(order)) |-> order[((k - 1) % Len(order)) + 1]]]
     /\ stage' = "built"
 
 \* with_grouped_sites: "a trivial lattice with the grouped_sites as sites and the same bc_MPS": one unit cell
